@@ -68,7 +68,7 @@ ExecOps(self, ops, st) ==
     IN CASE o.op = "sstore" ->
               ExecOps(self, rest, [st EXCEPT !.cells = Put(@, <<self, o.s>>, o.v)])
          [] o.op = "log" ->
-              ExecOps(self, rest, [st EXCEPT !.logs = Append(@, [a |-> self, t |-> o.t])])
+              ExecOps(self, rest, [st EXCEPT !.logs = Append(@, [a |-> self, t |-> [i \in DOMAIN o.t |-> ToString(o.t[i])]])])
          [] o.op = "revert" -> [ok |-> FALSE, st |-> st]
          [] o.op = "invalid" -> [ok |-> FALSE, st |-> st]
          [] o.op = "create" ->
@@ -87,13 +87,13 @@ ExecOps(self, ops, st) ==
          [] OTHER -> [ok |-> TRUE, st |-> st]
 
 (* The value returned by a successful run (for eth_call): the slot of the   *)
-(* first top-level "ret", else nothing.                                     *)
+(* first top-level "ret", else -1 (nothing returned).                       *)
 RECURSIVE RetOf(_, _, _)
 RetOf(self, ops, st) ==
-  IF ops = <<>> THEN NULL
+  IF ops = <<>> THEN -1
   ELSE LET o == Head(ops) IN
        IF o.op = "ret" THEN Get(st.cells, <<self, o.s>>, 0)
-       ELSE IF o.op \in {"selfdestruct", "stop"} THEN NULL
+       ELSE IF o.op \in {"selfdestruct", "stop"} THEN -1
        ELSE LET r == ExecOps(self, <<o>>, st) IN RetOf(self, Tail(ops), IF r.ok THEN r.st ELSE st)
 
 -----------------------------------------------------------------------------
@@ -213,6 +213,27 @@ Outcome(w, tx, seen) ==
          [valid |-> TRUE, status |-> seen.status, logs |-> seen.logs, created |-> NULL,
           world |-> IF tx.lc.fn # "none" THEN UserLedgerWorld(w, tx.from, tx.lc, seen.status)
                     ELSE BumpNonce(w, tx.from)]
+
+(* Return data of a transaction / eth_call, in the abstract form the harness logs:          *)
+(* "empty", "w:<n>" (one word), "code:<kind>" (the runtime code a creation returns).          *)
+CallOut(w, tx) ==
+  IF tx.gas = "tiny" THEN "empty"
+  ELSE IF tx.kind = "create" THEN (IF tx.ckind = "bad" THEN "empty" ELSE "code:" \o tx.ckind)
+  ELSE IF Code(w, tx.to) = "cell"
+  THEN LET w1 == BumpNonce(w, tx.from)
+           st == [cells |-> w1.cells, nonce |-> w1.nonce, code |-> w1.code, logs |-> <<>>]
+           r == ExecOps(tx.to, tx.ops, st)
+           v == RetOf(tx.to, tx.ops, st)
+       IN  IF r.ok /\ v # -1 THEN "w:" \o ToString(v) ELSE "empty"
+  ELSE "empty"
+
+(* eth_call / eth_callMany: evaluation on a scratch copy of the world; call i sees calls < i  *)
+RECURSIVE EvalMany(_, _)
+EvalMany(w, txs) ==
+  IF txs = <<>> THEN <<>>
+  ELSE LET tx == Head(txs)
+           o == Outcome(w, tx, [status |-> 1, logs |-> <<>>, created |-> NULL])
+       IN  <<[ok |-> o.status = 1, out |-> CallOut(w, tx)]>> \o EvalMany(o.world, Tail(txs))
 
 (* is the observed receipt one the machine allows? *)
 SeenOk(w, tx, seen) ==
